@@ -418,6 +418,29 @@ inductive TStep (c : TreeCfg) : List Act → List Act → Prop
   /-- the running activation returns. -/
   | ret (a : Act) (rest : List Act) : TStep c (a :: rest) rest
 
+/-! ### the cache's alias chase and the request deadline -/
+
+/-- what the chase loop of `cache.additionalAnswer` (all nesting levels of one
+request share the context) can observe: how many internal exchanges it has
+started, and whether the request deadline has passed. -/
+structure ChaseState where
+  started : Nat := 0
+  expired : Bool := false
+deriving Repr, DecidableEq
+
+inductive ChaseEv
+  | hop        -- some level reaches the top of its `lookup:` loop and wants another hop
+  | deadline   -- the request deadline passes (`contextutil.EffectiveError(ctx) != nil` from now on)
+deriving Repr, DecidableEq
+
+/-- `if contextutil.EffectiveError(ctx) != nil { return SERVFAIL }` precedes
+`c.internalExchange` on every iteration. -/
+def chaseStep (s : ChaseState) : ChaseEv → ChaseState
+  | .hop => if s.expired then s else { s with started := s.started + 1 }
+  | .deadline => { s with expired := true }
+
+def chaseRun (s : ChaseState) (evs : List ChaseEv) : ChaseState := evs.foldl chaseStep s
+
 /-! ### failure classification and the over-budget reply -/
 
 /-- inputs of `cacheableResolutionFailure`. -/
